@@ -44,6 +44,10 @@ CLAIMED = {
    text="History invariant over the recorded I/O trace (open/close events of every blk file against the heights being fetched): after each delivered height no open file may be one whose highest indexed block is already delivered; plus resource-fault enumeration: each world is re-run under a simulated descriptor limit (EMFILE from open) of every value from the model's peak P to P+3 and must succeed with model-equal output. Layout families: disjoint spans up to 300 files (P must be 1), overlapping spans, two interleaved files, late block of an early file, random; ranges starting/stopping mid-file.",
    note="The descriptor table is simulated inside the seam (count of open blk files), not RLIMIT_NOFILE, so LevelDB's and the output files' descriptors are not counted. Closing early and reopening is legal and not flagged.",
    tech="deterministic simulation: trace invariant checked at every height boundary + enumerated descriptor-limit faults (EMFILE) per sampled layout"),
+ "C13": dict(cat="exploration", ref="§5 C13, §2.6",
+   text="Schedule and history exploration: (a) each wide world (hundreds of txs per block / thousands of outputs per tx, so both rayon levels really split) is run 10-14 times over 1..64 workers with completion order pushed by per-item delays that are a pure function of the plan seed and item key (ascending, descending, random, one straggler), under 16-way process contention; all outputs must equal the 1-thread run and the reference model; (b) histories of 2-6 runs on one shared dump folder pre-seeded with longer stale tmp files, earlier results and unrelated files, judged after every step; (c) blk/xor digests and the logical key/value content of the index (read from a copy) must be unchanged by every run and reruns on the reopened index must agree.",
+   note="Rayon's interleaving is pushed (worker count + deterministic per-item delays), not decided: threads are real, so which worker ran what is not bit-exactly replayable; on a tree where the property holds the outcome is schedule-independent, so this cannot raise a false alarm; for a violation the replay command retries up to 6 times. shuttle/loom cannot drive rayon (DESIGN §10).",
+   tech="deterministic simulation of run histories + seeded schedule perturbation (worker count x completion-order delay plans), metamorphic equality across schedules and against a reference model"),
 }
 PENDING_REASON = "check not built yet in this revision (claimed in DESIGN.md; will move to checks when its oracle is registered)"
 ALL = ["C%02d" % i for i in range(1, 18)]
